@@ -66,7 +66,7 @@ EXTRA_OWNERS = {
     "C02": ("Network._init_morph_jaxley_spsolve", "Cell._init_morph_jaxley_spsolve", "remap_index_to_masked", "merge_cells",
             "step_voltage_implicit_with_jaxley_spsolve", "step_voltage_implicit_with_jax_spsolve"),
     "C12": ("merge_cells", "remap_to_consecutive", "compute_children_and_parents", "Network._init_morph_jaxley_spsolve",
-            "Network._init_morph_jax_spsolve"),
+            "Network._init_morph_jax_spsolve", "remap_index_to_masked", "compute_children_in_level", "compute_parents_in_level"),
     "C15": ("step_voltage_implicit_with_jaxley_spsolve", "step_voltage_implicit_with_jax_spsolve", "Module.get_all_parameters"),
     "C11": ("Module._external_input",),
     # several stimuli / clamps on one module accumulate in the module's own containers
@@ -646,6 +646,47 @@ def role_tokens(repo, col, prop):
                 out |= set(re.split(r"[_\W]+", x.arg.lower()))
         return out
 
+    IDENTITY_WRAPPERS = {"asarray", "array", "list", "tuple", "int", "float", "copy", "deepcopy", "to_numpy", "tolist", "to_list", "astype",
+                         "sorted", "unique"}
+
+    def spine_toks(node):
+        """tokens of what the value IS: the names along its access spine (`a.b[c].d()` -> a, b, d), looking through conversions
+        (`np.asarray(x)` -> x).  Names that only take part in computing it (`np.where(has_parent)`: the rows that HAVE a parent are
+        the children) say nothing about its role."""
+        out = set()
+        n = node
+        while True:
+            if isinstance(n, ast.Attribute):
+                out |= set(re.split(r"[_\W]+", n.attr.lower()))
+                n = n.value
+            elif isinstance(n, ast.Subscript):
+                if isinstance(n.slice, ast.Constant) and isinstance(n.slice.value, str):
+                    out |= set(re.split(r"[_\W]+", n.slice.value.lower()))
+                n = n.value
+            elif isinstance(n, ast.Call):
+                f = n.func
+                fname = f.attr if isinstance(f, ast.Attribute) else (f.id if isinstance(f, ast.Name) else None)
+                if fname in IDENTITY_WRAPPERS and n.args and not (isinstance(f, ast.Attribute) and not isinstance(f.value, ast.Name)):
+                    n = n.args[0]
+                elif fname in IDENTITY_WRAPPERS and isinstance(f, ast.Attribute):
+                    n = f.value
+                elif isinstance(f, ast.Attribute):
+                    out |= set(re.split(r"[_\W]+", f.attr.lower()))
+                    n = f.value
+                else:
+                    if isinstance(f, ast.Name):
+                        out |= set(re.split(r"[_\W]+", f.id.lower()))
+                    break
+            elif isinstance(n, ast.Name):
+                out |= set(re.split(r"[_\W]+", n.id.lower()))
+                break
+            elif isinstance(n, ast.Constant) and isinstance(n.value, str) and " " not in n.value and len(n.value) < 40:
+                out |= set(re.split(r"[_\W]+", n.value.lower()))
+                break
+            else:
+                break
+        return out
+
     def crossed(t_toks, v_toks):
         for a, b in ROLE_PAIRS:
             for p_, q_ in ((a, b), (b, a)):
@@ -664,15 +705,15 @@ def role_tokens(repo, col, prop):
                 tt = set()
                 for t_ in tg:
                     tt |= toks_of(t_)
-                pairs.append((tt, toks_of(node.value), node, ast.unparse(tg[0])[:40]))
+                pairs.append((tt, spine_toks(node.value), node, ast.unparse(tg[0])[:40]))
             elif isinstance(node, ast.Call):
                 for k in node.keywords:
                     if k.arg:
-                        pairs.append((set(re.split(r"[_\W]+", k.arg.lower())), toks_of(k.value), node, k.arg))
+                        pairs.append((set(re.split(r"[_\W]+", k.arg.lower())), spine_toks(k.value), node, k.arg))
             elif isinstance(node, ast.Dict):
                 for k, v in zip(node.keys, node.values):
                     if isinstance(k, ast.Constant) and isinstance(k.value, str) and not (isinstance(v, ast.Constant) and isinstance(v.value, str)):  # a NAME-to-NAME table (rename(columns=...)) states a swap on purpose
-                        pairs.append((set(re.split(r"[_\W]+", k.value.lower())), toks_of(v), node, repr(k.value)))
+                        pairs.append((set(re.split(r"[_\W]+", k.value.lower())), spine_toks(v), node, repr(k.value)))
             for tt, vt, nd, what in pairs:
                 if not any(a in tt or b in tt for a, b in ROLE_PAIRS):
                     continue
